@@ -996,7 +996,9 @@ class TreeTransform(Generic[TreeFnT]):
           '`output_keys` is deprecated, use positional arguments or'
           ' `assign_keys` instead.'
       )
-    assign_keys = assign_keys or output_keys
+    # An index or int key can be falsy, e.g., Index(0), but it is still a key.
+    if not isinstance(assign_keys, int):
+      assign_keys = assign_keys or output_keys
     fn = tree_fns.Assign(
         output_keys=assign_keys,
         fn=fn,
